@@ -215,3 +215,19 @@ func Unspill(v ssa.Value) ssa.Value {
 	}
 	return v
 }
+
+// infeasibleEdge reports whether taking the succ-th edge of b contradicts a branch condition on
+// the very same SSA value that dominates b (e.g. a second `if removed` after `if !removed {return}`).
+func infeasibleEdge(b *ssa.BasicBlock, succ int) bool {
+	ifi, ok := b.Instrs[len(b.Instrs)-1].(*ssa.If)
+	if !ok || b.Succs[0] == b.Succs[1] {
+		return false
+	}
+	edge := normCond(ifi, ifi.Cond, succ == 0)
+	for _, k := range CondsAt(b) {
+		if k.V == edge.V && k.Taken != edge.Taken {
+			return true
+		}
+	}
+	return false
+}
